@@ -222,7 +222,8 @@ def _get_unused_imports(ast_tree: ast.Module) -> Collection[str]:
             full_name = re.sub(r"\.[^\.]*$", "", full_name)
             names.add(full_name)
 
-    return imports - names
+    # What a star import provides is not known here (fix_starred_imports deals with those)
+    return imports - names - {"*"}
 
 
 def _get_unused_imports_split(
